@@ -238,6 +238,15 @@ def run(ck, F):
     gids = [f for f in F.fn.values() if f['name'] == 'get_identifier' and (f.get('parent') or '').endswith('name_factory') and len(f['params']) == 1]
     if len(gids) < 2:
         raise AnalysisBroken(f'get_identifier overloads found: {len(gids)}')
+    # word -> String: the routes word -> linkage / label recognise the constants by the identity of the interned String, so a
+    # reserved spelling must be interned as the reserved-word node
+    intern = F.need_fn('ipr::util::string_pool::intern(std::basic_string_view<char8_t, std::char_traits<char8_t>>)')
+    iroutes = words.spelling_routes(F, intern['id'], lambda fid: F.fn.get(fid) is None or F.fn[fid]['name'] in ('word_if_known', 'make_string'))
+    ibad = [(w, [x.decode('utf-8', 'replace') for x in ps[:3]]) for w, ps, _s in iroutes if ps]
+    ck.check(R6, 'intern(word)', bool(iroutes) and not ibad,
+             f'{intern["id"]}: the reserved spelling(s) {[b[1] for b in ibad]} are interned as dynamic Strings (path {[b[0][:100] for b in ibad]}): '
+             'the routes that recognise a constant by the identity of its spelling (word -> linkage, identifier -> label) yield a look-alike',
+             loc=intern['loc'], fn=intern['id'])
     for f in sorted(gids, key=lambda f: f['id']):
         routes_ = words.spelling_routes(F, f['id'], keyrule.key_opaque(F))
         bad = [(w, [x.decode('utf-8', 'replace') for x in ps[:3]]) for w, ps, _s in routes_ if ps]
